@@ -784,3 +784,58 @@ pub fn parse_search(seed: u64, n: u64, mode: &str) -> i32 {
     println!("SEARCH tried={} found=0", tried);
     0
 }
+
+// ---------------------------------------------------------------------------------------------
+// C17 oracle: the text of a range depends only on its contents
+pub fn check_c17(entries: &Vec<(CardPair, f32)>, seed: u64) -> Result<String, String> {
+    let mut rng = Rng(seed);
+    let a: HandRange = entries.iter().cloned().collect();
+    let mut rev = entries.clone(); rev.reverse();
+    let b: HandRange = rev.iter().cloned().collect();
+    // insertion with overwrites: every combo first with a wrong weight, in shuffled order, then the right one
+    let mut sh = entries.clone();
+    for i in 0..sh.len() { let j = i + rng.below((sh.len() - i) as u64) as usize; sh.swap(i, j); }
+    let mut twice: Vec<(CardPair, f32)> = sh.iter().map(|(p, _)| (*p, 0.125)).collect();
+    twice.extend(sh.iter().cloned());
+    let c: HandRange = twice.iter().cloned().collect();
+    let (ta, tb, tc) = match std::panic::catch_unwind(|| (a.to_string(), b.to_string(), c.to_string())) { Ok(x) => x, Err(_) => return Err("to_string panicked".to_string()) };
+    if ta != tb { return Err(format!("insertion order changes the text: {:?} vs {:?}", ta, tb)); }
+    if ta != tc { return Err(format!("overwrites change the text: {:?} vs {:?}", ta, tc)); }
+    // the text parses back to the same contents (so the section order / merging did not lose anything)
+    if let Ok(back) = ta.parse::<HandRange>() {
+        if back != a { return Err(format!("text {:?} parses to a different range", ta)); }
+        if back.to_string() != ta { return Err(format!("parse-then-format changes the text {:?}", ta)); }
+    }
+    Ok(ta)
+}
+
+pub fn c17_search(seed: u64, n: u64) -> i32 {
+    std::panic::set_hook(Box::new(|_| {}));
+    let mut rng = Rng(seed ^ 0xC17);
+    let rps = all_rank_pairs();
+    for it in 0..n {
+        let mut entries: Vec<(CardPair, f32)> = vec![];
+        // runs of adjacent rank pairs with equal / different weights, partial rank pairs, leftovers
+        let k = 1 + rng.below(6);
+        for _ in 0..k {
+            let start = rng.below(rps.len() as u64) as usize;
+            let len = 1 + rng.below(4) as usize;
+            let w = [1.0f32, 0.5, 0.25][rng.below(3) as usize];
+            for rp in rps.iter().skip(start).take(len) {
+                let partial = rng.below(5) == 0;
+                for c in combos_fp(*rp) {
+                    if partial && rng.below(3) == 0 { continue; }
+                    if let Some(e) = entries.iter_mut().find(|e| e.0 == c) { e.1 = w; } else { entries.push((c, w)); }
+                }
+            }
+        }
+        if let Err(e) = check_c17(&entries, seed + it) {
+            let d: Vec<String> = entries.iter().map(|(p, w)| format!("{}:{}", p, w)).collect();
+            println!("WITNESS c17 {} {} :: {}", seed + it, d.join(","), e);
+            println!("SEARCH tried={} found=1", it + 1);
+            return 1;
+        }
+    }
+    println!("SEARCH tried={} found=0", n);
+    0
+}
